@@ -61,6 +61,42 @@ theorem step (pre : Fsm) (hs : pre.state < 4) (e : Int) (now : Nat) (hn : now < 
         exact key _ hs
       simp only [if_neg hw, h1, decide_true]
 
+/-- the same when the clock moves WHILE the call runs (`stepSessionR`: reading `now1` on entry, `now2` — whatever it is — on the
+    second level after an expiry): the decision is the one for the time of entry ... -/
+theorem step_moving_clock (pre : Fsm) (hs : pre.state < 4) (e : Int) (now1 now2 : Nat) (hn : now1 < u64) (hl : pre.lastTs ≤ now1) :
+    holdsC15Step (timeoutOf X.sessionTimeouts pre.state) pre (stepSessionR pre e now1 now2) e now1 = true := by
+  have hd : diff64 now1 pre.lastTs = now1 - pre.lastTs := diff64_of_le _ _ hl hn
+  unfold holdsC15Step
+  split
+  · rfl
+  · by_cases hw : timeoutOf X.sessionTimeouts pre.state = 0 ∨ now1 - pre.lastTs ≤ timeoutOf X.sessionTimeouts pre.state
+    · have e' := stepTimedR_within X.sessionTable X.sessionTimeouts pre e now1 now2 (by rw [hd]; exact hw)
+      unfold stepSessionR
+      rw [e']
+      simp only [if_pos hw, lookup_spec pre.state hs e, decide_true]
+    · have hx : timeoutOf X.sessionTimeouts pre.state ≠ 0 ∧ diff64 now1 pre.lastTs > timeoutOf X.sessionTimeouts pre.state := by
+        rw [hd]; constructor
+        · intro h0; exact hw (Or.inl h0)
+        · omega
+      unfold stepSessionR
+      rw [stepTimedR_expired X.sessionTable X.sessionTimeouts pre e now1 now2 hx, stepTimedAux_one_state]
+      have h1 : (lookup X.sessionTable (lookup X.sessionTable pre.state (-1)).1 (-1)).1 = 1 := by
+        have key : ∀ s' < 4, (lookup X.sessionTable (lookup X.sessionTable s' (-1)).1 (-1)).1 = 1 := by decide
+        exact key _ hs
+      simp only [if_neg hw, h1, decide_true]
+
+/-- ... and an event that does not find the session expired stamps the time of entry, not a later reading -/
+theorem stamp_at_entry (pre : Fsm) (e : Int) (now1 now2 : Nat) (hn : now1 < u64) (hl : pre.lastTs ≤ now1)
+    (hw : timeoutOf X.sessionTimeouts pre.state = 0 ∨ now1 - pre.lastTs ≤ timeoutOf X.sessionTimeouts pre.state) :
+    (stepSessionR pre e now1 now2).lastTs = now1 := by
+  have hd : diff64 now1 pre.lastTs = now1 - pre.lastTs := diff64_of_le _ _ hl hn
+  unfold stepSessionR
+  rw [stepTimedR_within X.sessionTable X.sessionTimeouts pre e now1 now2 (by rw [hd]; exact hw)]
+
+/-- with a clock that stands still during the call this is `stepSession` -/
+theorem moving_same (pre : Fsm) (e : Int) (now : Nat) : stepSessionR pre e now now = stepSession pre e now :=
+  stepTimedR_same _ _ pre e now
+
 def run (a : Fsm) : List (Int × Nat) → Fsm
   | [] => a
   | (e, now) :: rest => run (stepSession a e now) rest
@@ -87,6 +123,9 @@ theorem history (a : Fsm) (hs : a.state < 4) (evs : List (Int × Nat)) (hm : mon
     have := ih (stepSession a e now) hs' (by rw [hl']; exact h3)
     simp only [stepsOk, run, step a hs e now h2 h1, this.1, Bool.and_self, true_and]
     exact this.2
+
+/-- non-vacuity of the moving-clock form: an event entered in second 51 and finished in second 52 stamps 51 -/
+example : (stepSessionR ⟨3, 51⟩ 2 51 52).lastTs = 51 ∧ (stepSessionR ⟨3, 49⟩ 2 51 52) = ⟨1, 52⟩ := by decide
 
 /-- non-vacuity: a Complete session reset within its timeout goes to Nascent; the cell repaired in 79bd955 -/
 example : (stepSession ⟨3, 10⟩ 1 10).state = 1 ∧ holdsC15Step 1 ⟨3, 10⟩ (stepSession ⟨3, 10⟩ 1 10) 1 10 = true := by decide
